@@ -63,8 +63,11 @@ func runSelftests(prop, repo, verif string) map[string]any {
 	if f := os.Getenv("KVLINT_MUTANT_FILTER"); f != "" { // development aid: run only the mutants whose name contains f
 		var keep []mutant
 		for _, m := range ms {
-			if strings.Contains(m.Name, f) {
-				keep = append(keep, m)
+			for _, alt := range strings.Split(f, "|") {
+				if strings.Contains(m.Name, alt) {
+					keep = append(keep, m)
+					break
+				}
 			}
 		}
 		ms = keep
